@@ -587,12 +587,17 @@ fn loadably_selected_field_ast_node<TCompilationProfile: CompilationProfile>(
             } else {
                 "ComponentReaderArtifact"
             };
+        let ts_file_extension = db
+            .get_isograph_config()
+            .options
+            .include_file_extensions_in_import_statements
+            .ts();
         format!(
             "{{\n\
             {indent_3}kind: \"EntrypointLoader\",\n\
             {indent_3}typeAndField: \"{type_and_field}\",\n\
             {indent_3}readerArtifactKind: \"{reader_artifact_kind}\",\n\
-            {indent_3}loader: () => import(\"../../{field_parent_type}/{name}/entrypoint\").then(module => module.default),\n\
+            {indent_3}loader: () => import(\"../../{field_parent_type}/{name}/entrypoint{ts_file_extension}\").then(module => module.default),\n\
             {indent_2}}}"
         )
     };
